@@ -27,6 +27,15 @@ def check_term(chk, rule: str, inst: str, where: str, found: Any, accepted: List
     if T.has_opaque(found):
         return chk.ob(rule, inst, None, where, found=T.show(found)[:400], why="; ".join(T.opaque_reasons(found))[:300], key=key)
     ok = found in accepted
+    def _nocoldata(x):
+        # a column handed to a frame constructor as data (pd.DataFrame({"c": values})) holds those values: coldata(v) is v for a value slot
+        if isinstance(x, tuple):
+            if len(x) == 2 and x[0] == "coldata":
+                return _nocoldata(x[1])
+            return tuple(_nocoldata(y) for y in x)
+        return x
+    if not ok and T.renorm(_nocoldata(found)) in [T.renorm(_nocoldata(a)) for a in accepted]:
+        ok = True
     if not ok and T.strip_casts(found) in [T.strip_casts(a) for a in accepted]:
         ok = True          # law: a cast to a full-width numeric type (int64 / float64) keeps every value; a narrowing cast stays a difference
     if not ok:
